@@ -289,3 +289,111 @@ func verifHarness_C03_registration_failure() {
 	verifAssertD(f.closes == 1 && !f.open, "descriptor-closed-exactly-once", "registration-failure")
 	verifAssert(false, "witness")
 }
+
+// UDP peer sessions: one open and exactly one close notification per session,
+// whatever ends it — Close from the application (twice, possibly from another
+// goroutine), the UDP read timeout, or the listener being closed with sessions
+// alive; a remote that talks again after its session ended gets a new session.
+func verifHarness_C03_udp_sessions() {
+	verifBound("remotes", 2)
+	verifBound("preemptions", 1)
+	vkReset()
+	MaxOpenFiles = 32
+	conf := Config{NPoller: 1, ReadBufferSize: 8}
+	withTimeout := verifChoose("udp_read_timeout", 2) == 1
+	if withTimeout {
+		conf.UDPReadTimeout = time.Second
+	}
+	g := NewEngine(conf)
+	opened := map[*Conn]int{}
+	closed := map[*Conn]int{}
+	closedBeforeOpen := false
+	var order []*Conn
+	g.OnOpen(func(c *Conn) {
+		opened[c]++
+		order = append(order, c)
+	})
+	g.OnClose(func(c *Conn, err error) {
+		if opened[c] == 0 {
+			closedBeforeOpen = true
+		}
+		closed[c]++
+	})
+	var last *Conn
+	g.OnData(func(c *Conn, data []byte) { last = c })
+	verifSched(true, 1)
+	if err := g.Start(); err != nil {
+		verifFail("engine-start-failed", "")
+		return
+	}
+	f := vk.newFd(vkSockDgram)
+	srv := &Conn{fd: f.fd, typ: ConnTypeUDPServer}
+	srv.connUDP = &udpConn{parent: srv, conns: map[udpAddrKey]*Conn{}}
+	if err := g.pollers[0].addConn(srv); err != nil {
+		verifFail("addconn-failed", "")
+		return
+	}
+	a1 := &syscall.SockaddrInet4{Port: 1001, Addr: [4]byte{10, 0, 0, 1}}
+	a2 := &syscall.SockaddrInet4{Port: 1002, Addr: [4]byte{10, 0, 0, 2}}
+	f.peerDatagram([]byte("x"), a1)
+	verifJoin()
+	s1 := last
+	f.peerDatagram([]byte("y"), a2)
+	verifJoin()
+	s2 := last
+	if s1 == nil || s2 == nil || s1 == s2 {
+		verifFail("sessions-not-created", "")
+		return
+	}
+	how := verifChoose("end_of_session_1", 4)
+	switch how {
+	case 0: // the application closes it, twice
+		_ = s1.Close()
+		_ = s1.Close()
+	case 1: // two goroutines close it while the poller delivers another datagram
+		verifGo(func() { _ = s1.Close() })
+		verifGo(func() { _ = s1.CloseWithError(ErrReadTimeout) })
+		f.peerDatagram([]byte("z"), a2)
+	case 2: // nothing: it lives until the listener goes away (or its timeout)
+	case 3: // the listener is closed while a datagram for session 2 is pending
+		f.peerDatagram([]byte("z"), a2)
+		verifGo(func() { _ = srv.Close() })
+	}
+	verifJoin()
+	if withTimeout {
+		// every read timeout that is still armed expires
+		for i := 0; i < verifTimerCount(); i++ {
+			if verifTimerArmed(i) {
+				verifFireTimer(i)
+				verifJoin()
+			}
+		}
+	}
+	if how == 0 || how == 1 {
+		verifAssertD(closed[s1] == 1, "udp-session-closed-exactly-once", "by-application")
+		_, werr := s1.Write([]byte("w"))
+		verifAssertD(werr != nil, "write-after-close-fails", "udp-session")
+		if !withTimeout {
+			// the same remote talks again: a new session, a new open
+			f.peerDatagram([]byte("again"), a1)
+			verifJoin()
+			verifAssertD(last != nil && last != s1 && opened[last] == 1, "new-session-after-close", "")
+			verifReach("remote-returns-after-close")
+		}
+	}
+	if withTimeout && how != 3 {
+		verifAssertD(closed[s2] == 1, "udp-session-closed-exactly-once", "by-read-timeout")
+		verifReach("session-timed-out")
+	}
+	_ = srv.Close()
+	_ = srv.Close()
+	verifJoin()
+	for _, c := range order {
+		verifAssertD(opened[c] == 1, "udp-session-opened-exactly-once", "")
+		verifAssertD(closed[c] == 1, "udp-session-closed-exactly-once", "at-listener-close")
+	}
+	verifAssertD(!closedBeforeOpen, "no-close-before-open", "udp")
+	verifAssertD(opened[srv] == 0 && closed[srv] == 0, "listener-is-not-a-session", "")
+	g.Stop()
+	verifAssert(false, "witness")
+}
